@@ -260,6 +260,7 @@ func c10Mutate(r *Rng, prev c10Rec, lens []int) c10Rec {
 
 func c10Gen(g *Gen) {
 	r := g.R
+	c10GenSpec(g) // kinds 1 and 2: the specification decoder and unescaper against independent Go code
 
 	// ---- 1. fixed probes ----
 	{
